@@ -240,16 +240,23 @@ def finish(run_, F, helpers, dc):
     run_.check(any(tbl.error_variant(F, p.ret) == "SchemaMismatch" for p in nb), "J", "de Bool rejects other bytes",
                "a bool byte other than 0/1 must be rejected", A.fn.where())
     # entry points
-    WANT = {
-        "de::from_slice_dyn": ["if tag(#1) == 0: #1 = de::deserialize(arg1, arg2) => Result::Ok(okval(#1).0)", "if tag(#1) == 1: #1 = de::deserialize(arg1, arg2) => Err(from #1)"],
-        "ser::to_stdvec_dyn": ["if tag(#2) == 0: #1 = std::vec::Vec::<T>::new(); #2 = ser::ser_named_type(arg1, arg2, &{#1}) => Result::Ok(after#2(_local))",
-                               "if tag(#2) == 1: #1 = std::vec::Vec::<T>::new(); #2 = ser::ser_named_type(arg1, arg2, &{#1}) => Err(from #2)"],
-    }
-    import summ
-    for k, want in WANT.items():
+    # entry points, specified by hand in the vocabulary of the semantic summaries: run the walker once on (schema, input); hand back the
+    # value (dropping the remainder) / the filled vector; an error is returned unchanged
+    import summ2
+    T = lambda *lits: [[["tag", "tag(#1)", ["in", list(lits)]]]]
+    de_fn, ser_fn = F.fn_by_canon(dynarms.DE_FN), F.fn_by_canon(dynarms.SER_FN)
+    SPEC = {}
+    if de_fn is not None:
+        call = "#1 = %s(arg1, arg2)" % de_fn.def_
+        SPEC["de::from_slice_dyn"] = [(call + " => Result::Err(errval(#1))", T(1)), (call + " => Result::Ok(okval(#1).0)", T(0))]
+    if ser_fn is not None:
+        call = "#1 = %s(arg1, arg2, &{Vec::new()})" % ser_fn.def_
+        SPEC["ser::to_stdvec_dyn"] = [(call + " => Result::Err(errval(#1))", T(1)), (call + " => Result::Ok(after#1(~))", T(0))]
+    for k, outs in SPEC.items():
         fs = [f for f in dc.fns if f.def_ == k]
         if len(fs) == 1:
-            summ.check(run_, "E", fs[0], want, F, what="entry point")
+            want = {"outcomes": [{"text": t, "when": w} for t, w in sorted(outs)], "vars": {"tag(#1)": {"dom": [0, 1]}}, "truncated": False}
+            summ2.check(run_, "E", fs[0], want, F, what="entry point", key=k, inline=lambda g, ev: g.crate == "postcard_dyn" and g.canon not in (dynarms.DE_FN, dynarms.SER_FN))
         else:
             run_.bad("E", k, "entry point not found")
     run_.floor("E", 2)
